@@ -213,6 +213,13 @@ _add("C15", "Values whose pickles name standard-library classes (os.stat_result,
 _add("C10", "Several servers without pooling (one connection per server in flight when the interrupt comes).")
 _add("C14", "The default seed is 0.")
 _add("C06", "The fail-over histories behind the add_server defect are spelled out (recover just before the evicting call, revival after dead_timeout, close).")
+_add("C06", "A connected client is carried across fork (pid model): at most one open socket at a time in the child too.")
+_add("C19", "reconfigure_nodes() is also called from inside an except block.")
+_add("C18", "A configured cache may itself be a FallbackClient subclass (nested configurations): it is consulted and written through its own methods.")
+_add("C07", "1500 present keys in one multi-key read under a hard fault at every socket call.")
+_add("C13", "A configuration with capitalised host names whose servers join through add_server().")
+_add("C03", "Values of 64 KiB and more.")
+_add("C16", "The server as a UNIX socket path; 600- and 1100-key reads.")
 NOT_YET = "check not built yet in this round (runtime-monitoring design in DESIGN.md §2); will be claimed once its monitor exists"
 
 manifest = {
